@@ -106,6 +106,30 @@ def reason_not_overwritten(R, prog, P):
                describe=lambda ev: 'without the thread lock a reason is stored only for a READY thread with no pending reason', min_sites=1, what='error_number write')
 
 
+def interrupt_retest_under_lock(R, prog, P):
+    """K6: thread_interrupt() hands a thread to prelocked_thread_interrupt() only after it saw th->state == SLEEPING *while holding
+    th->lock*: what was read (directly, or into a local snapshot) before the lock was taken is stale once the lock is held."""
+    G = K.build(R, prog, 'photon::thread_interrupt')
+    f = G.root
+    th = K.param(f, 0)
+    snap = K.locals_defined_only_by(f, r'^%s->state$' % re.escape(th))
+    lt = an.LockTracker()
+    acquires = lambda ev: any(op == '+' and fact == 'L:%s->lock' % th for op, fact in lt.effects(ev))
+    gt = an.GuardTracker(lambda k: True, lock_tracker=lt, kill=lambda ev, key: acquires(ev) and any(re.search(r'(?<![\w.>])%s(?!\w)' % re.escape(n), key) for n in snap))
+    def snapdef(ev):
+        if ev.kind == 'binop' and ev.e['op'] == '=' and ev.path(ev.e['l']) in snap:
+            return True
+        return ev.kind == 'declstmt' and any(ev.f.decls[v['decl']]['name'] in snap for v in ev.e['vars'])
+    res = an.run(G, [lt, gt, an.SeenTracker([('stale', acquires), ('fresh', snapdef, ('stale',))])])
+    SL = [e['cv'] for e in f.exprs if e['k'] == 'enumconst' and (e.get('name') or '').endswith('::SLEEPING') and 'cv' in e]
+    sl = SL[0] if SL else 1
+    K.check_at(R, P + '.K6', G, res, lambda ev: ev.kind == 'call' and ev.callee() == 'photon::prelocked_thread_interrupt',
+               require=lambda st, ev: an.has_lock(st, th + '->lock') and (('G:%s->state == %d=T' % (th, sl)) in st or
+                                                                           ('S:stale' not in st and any(('G:%s == %d=T' % (n, sl)) in st for n in snap))),
+               key_fn=lambda ev: P + '.K6:photon::thread_interrupt:sleeping-retested-under-the-thread-lock',
+               describe=lambda ev: 'the sleeper is interrupted only after its state was (re)read as SLEEPING with th->lock held', min_sites=1, what='prelocked_thread_interrupt')
+
+
 def gather_extract(R, prog, P):
     """K6 (shared by C14 and C12): iovector::extract_{front,back}_continuous gather-copies `bytes` into a fresh buffer only
     if the vector really holds that many bytes and the buffer was allocated - otherwise a deserialized field would be
